@@ -21,7 +21,7 @@ from .sym import Sym, Unsupported, PyRaise, as_bool_term
 
 RLIMIT_FEAS = int(os.environ.get("PYVC_RLIMIT_FEAS", 3_000_000))
 RLIMIT_PROVE = int(os.environ.get("PYVC_RLIMIT", 40_000_000))
-TIMEOUT_MS = int(os.environ.get("PYVC_TIMEOUT_MS", 60_000))
+TIMEOUT_MS = int(os.environ.get("PYVC_TIMEOUT_MS", 300_000))   # wall-clock guard only; the deterministic budget is the rlimit
 
 
 class PathEnd(Exception):
